@@ -19,6 +19,18 @@ partial def parseProg (j : Json) : Option Prog := do
     let out ← match (← jNat? (arg a 2)) with
       | 0 => some Out.retNil | 1 => some Out.retErr | 2 => some Out.panic | _ => none
     some (.blk body out (← jNat? (arg a 3)) (← jBool? (arg a 4)))
+  | "dv" =>
+    -- ["dv", kind, arg, body, must]; the concrete Go derivation is the text after ':' (model: only its class matters)
+    let kind ← jStr? (arg a 1)
+    let n ← jNat? (arg a 2)
+    let body ← (← jArr? (arg a 3)).toList.mapM parseProg
+    let cls := (kind.splitOn ":").headD ""
+    let k ← match cls with
+      | "keep" => some Derive.keep | "prep" => some Derive.prep | "newdb" => some Derive.newDB
+      | "skiptx" => some Derive.skipTx | "disnested" => some Derive.disNested | "where" => some (Derive.whereNe n)
+      | "chain" => some Derive.chain | "initialized" => some Derive.initialized | "debug" => some Derive.debug
+      | _ => none
+    some (.dv k body (← jBool? (arg a 4)))
   | "man" =>
     let body ← (← jArr? (arg a 1)).toList.mapM parseProg
     let fin ← match (← jNat? (arg a 2)) with
@@ -67,6 +79,7 @@ def handleC04 (op : String) (args : Array Json) : Option Json := do
     some (Json.mkObj [
       ("store", natListJ db.committed), ("res", resJ r), ("open", natJ db.open), ("inuse", natJ db.open),
       ("trace", Json.arr (db.trace.reverse.map tokJ).toArray),
+      ("txof", natListJ db.txof.reverse),
       ("reads", Json.arr (db.reads.reverse.map natListJ).toArray),
       ("stale", Json.bool db.stale), ("rbfault", Json.bool db.rbFault)])
   | "tx.spec" =>
